@@ -181,6 +181,29 @@ pub fn run(rep: &mut Report, thorough: bool) {
             &mut rep.sink,
         );
         rep.stage(&format!("tcp-data-ports-{}", tag), "[SYN, PSH|ACK(GET)] x port sweeps x {v4,v6}", product(&dims), t0);
+        // every answered payload of the corpus and every STUN attribute shape (addresses and ports
+        // carried INSIDE a request must not steer the reply), over UDP and over [SYN, data]
+        if main_cfg {
+            let mut shapes: Vec<Vec<u8>> = payloads().into_iter().map(|p| p.bytes).collect();
+            shapes.extend(stun_attr_shapes());
+            let ns = shapes.len() as u64;
+            sweep_frames(rep, &cfg, &format!("payload-shapes-udp-{}", tag), "corpus payloads + STUN requests with one attribute of 99 types x 7 well-formed value shapes x 3 layouts, as datagrams x {v4,v6}", ns * 2, |i| flow(i % 2 == 1, 40000, 3478).udp(&shapes[(i / 2) as usize]));
+            let t0 = std::time::Instant::now();
+            let opts = RunOpts::new(&format!("payload-shapes-tcp-{}", tag)).stateful().chunk(128);
+            engine::run(
+                &cfg,
+                ns * 2,
+                &opts,
+                |i| {
+                    let f = flow(i % 2 == 1, 40001, 3478);
+                    let c = cookie_guess(key, &f.cip, &f.sip, f.cport, f.sport);
+                    vec![Cmd::Frame(f.tcp(100, 0, F_SYN, b"")), Cmd::Frame(f.tcp(101, c.wrapping_add(1), F_PSH | F_ACK, &shapes[(i / 2) as usize]))]
+                },
+                |_it: &Item, _s: &mut Sink| {},
+                &mut rep.sink,
+            );
+            rep.stage(&format!("payload-shapes-tcp-{}", tag), "the same payloads behind [SYN, PSH|ACK] x {v4,v6}", ns * 2, t0);
+        }
     }
     // a self-IP list that contains group addresses next to unicast ones: requests to the group are
     // answered from the group address (the identity that was asked), whatever else is on the list
